@@ -198,6 +198,9 @@ func (d *Decls) sortOf(t types.Type) string {
 		if isTimeTime(u) {
 			return SInt
 		}
+		if isStringsBuilder(u) {
+			return SStr // a strings.Builder is modelled by its accumulated content
+		}
 		if st, ok := u.Underlying().(*types.Struct); ok {
 			return d.structSort(u, st)
 		}
@@ -246,6 +249,11 @@ func (d *Decls) sortOf(t types.Type) string {
 func isByte(t types.Type) bool {
 	b, ok := t.Underlying().(*types.Basic)
 	return ok && (b.Kind() == types.Byte || b.Kind() == types.Uint8)
+}
+
+func isStringsBuilder(n *types.Named) bool {
+	o := n.Obj()
+	return o.Pkg() != nil && o.Pkg().Path() == "strings" && o.Name() == "Builder"
 }
 
 func isTimeTime(n *types.Named) bool {
